@@ -455,7 +455,7 @@ mcall(const char *name, void *fn, int nargs, ...)
         struct tramp_ctx *tc = &cm->tc;
         va_list ap;
         va_start(ap, nargs);
-        for (int i = 0; i < nargs && i < 16; i++)
+        for (int i = 0; i < nargs && i < 40; i++)
                 tc->args[i] = va_arg(ap, uint64_t);
         va_end(ap);
         tc->fn = (uint64_t) fn;
